@@ -38,11 +38,11 @@ that compiles, passes the unedited suite and needs something specific to manifes
 and filed under `seeded/<id>/` (patch.diff, demo/, notes.md, meta.json). `tools/try_seed.sh <id> <Cxx>` applies the patch to
 /repo, runs the check and restores the tree. Results:
 
-| seed | what it needs to manifest | caught by |
-|---|---|---|
+| seed | what it needs to manifest | caught by | check changed because of this seed? |
+|---|---|---|---|
 """)
 for m in seeds:
     det = "; ".join("%s %s: %s" % (d['check'], d['tier'], d['result']) for d in m.get('detected_by', [])) or "(not yet run)"
-    t.append("| %s | %s | %s |\n" % (m['id'], m.get('needs', '').replace('|', '/'), det.replace('|', '/')))
+    t.append("| %s | %s | %s | %s |\n" % (m['id'], m.get('needs', '').replace('|', '/'), det.replace('|', '/'), m.get('strengthening', '(round 1: see the list below the table)').replace('|', '/')))
 t.append(open('/verif/tools/design_tail_notes.md').read())
 open('/verif/DESIGN.md', 'w').write("".join(t))
